@@ -335,6 +335,23 @@ def cap_unmatched_strings(text):
 
 
 _STRIP = re.compile(r'"(?:[^"\\\n]|\\.)*"?|//[^\n]*')
+_WIDE_INT_TYPE = re.compile(r'(?<![A-Za-wyz0-9_$.])([su]?i)([0-9]{7})[0-9]+(?![0-9])')
+
+
+def cap_integer_widths(text):
+    """-> (text', n). Integer types wider than 7 digits (iN, siN, uiN with N >= 10^7; MLIR's limit is 2^24)
+    outside string literals and comments are cut to 7 digits: building their value range allocates N bits per
+    big-int operation (known finding; un-interruptible for seconds when N approaches the memory limit)."""
+    out, pos, n = [], 0, 0
+    for m in _STRIP.finditer(text):
+        seg, k = _WIDE_INT_TYPE.subn(r"\1\2", text[pos:m.start()])
+        out.append(seg)
+        out.append(m.group(0))
+        n += k
+        pos = m.end()
+    seg, k = _WIDE_INT_TYPE.subn(r"\1\2", text[pos:])
+    out.append(seg)
+    return "".join(out), n + k
 
 
 def nesting_depth(text):
@@ -352,9 +369,9 @@ def nesting_depth(text):
 # ------------------------------------------------------------------------------------------------
 # running the code under test
 class _Timeout(BaseException):
-    def __init__(self, site, which):
+    def __init__(self, site, which, where="-"):
         super().__init__(site)
-        self.site, self.which = site, which
+        self.site, self.which, self.where = site, which, where
 
 
 _XDSL_DIR = None
@@ -375,15 +392,25 @@ def _site_of(filename, func):
     return None
 
 
+_PARSER_FILES = ("xdsl/parser/", "xdsl/utils/mlir_lexer.py")
+
+
 def _on_alarm(signum, frame):
-    site = None
+    """site: innermost xdsl frame at the interrupt (varies inside a loop); where: innermost frame of the
+    parser/lexer, i.e. what the parser was doing (stable); 'verify' if the parse had finished."""
+    site = where = None
     f = frame
     while f is not None:
-        site = _site_of(f.f_code.co_filename, f.f_code.co_name)
-        if site is not None:
-            break
+        s = _site_of(f.f_code.co_filename, f.f_code.co_qualname)
+        if s is not None:
+            if site is None:
+                site = s
+            if where is None and s.startswith(_PARSER_FILES):
+                where = s
+            if where is None and s.startswith("xdsl/ir/core.py:") and s.endswith(".verify"):
+                where = "verify"
         f = f.f_back
-    raise _Timeout(site or "<outside xdsl>", "cpu" if signum == signal.SIGVTALRM else "wall")
+    raise _Timeout(site or "<outside xdsl>", "cpu" if signum == signal.SIGVTALRM else "wall", where or "-")
 
 
 _SETUP = False
@@ -401,7 +428,7 @@ def _setup_process():
     # a shape such as tensor<99999999999xi8> must end in MemoryError, not in swapping the machine
     try:
         soft, hard = resource.getrlimit(resource.RLIMIT_AS)
-        want = 4 << 30
+        want = 1 << 30     # (a shard with every dialect loaded has a virtual size of ~80 MB)
         if soft == resource.RLIM_INFINITY or soft > want:
             resource.setrlimit(resource.RLIMIT_AS, (want, hard))
     except (ValueError, OSError):  # pragma: no cover
@@ -474,7 +501,7 @@ def run_once(entry, text, unreg=True, cap=None):
         if _WALL_BACKSTOP:
             signal.setitimer(signal.ITIMER_REAL, 0)
         o.status = "timeout" if t.which == "cpu" else "wall_timeout"
-        o.site = t.site
+        o.site, o.via = t.site, t.where
     except ParseError as e:
         o.status, o.type = "parse_error", type(e).__name__
     except DiagnosticException as e:
@@ -498,10 +525,13 @@ def _innermost(e):
     """-> (site, line, via): innermost xdsl frame, and the innermost xdsl frame in a different file (the code
     that called into the file of `site`: tells a dialect's verifier apart when the raise is in shared code)."""
     frames = []
-    for fs in traceback.extract_tb(e.__traceback__):
-        s = _site_of(fs.filename, fs.name)
+    tb = e.__traceback__
+    while tb is not None:
+        code = tb.tb_frame.f_code
+        s = _site_of(code.co_filename, code.co_qualname)
         if s is not None:
-            frames.append((s, fs.lineno))
+            frames.append((s, tb.tb_lineno))
+        tb = tb.tb_next
     if not frames:
         return None, None, None
     site, line = frames[-1]
@@ -535,11 +565,16 @@ def _crash(o, e):
 
 # ---- hang confirmation -------------------------------------------------------------------------
 def _region(text, lexpos):
-    """The stretch of input the lexer/parser was working on when interrupted: from the interrupt position
-    (one character back: the lexer has consumed the first character of the token) to the end of its line,
-    at most 256 characters."""
-    a = max(0, min(len(text) - 1, lexpos - 1))
-    b = text.find("\n", a)
+    """The stretch of input the lexer/parser was working on when interrupted: from the start of the
+    blank-delimited word that holds the last character the lexer consumed, to the end of that line
+    (at most 256 characters)."""
+    p = max(0, min(len(text) - 1, lexpos - 1))
+    while p > 0 and text[p].isspace():
+        p -= 1
+    a = p
+    while a > 0 and not text[a - 1].isspace():
+        a -= 1
+    b = text.find("\n", p)
     b = len(text) if b < 0 else b
     b = min(b, a + 256)
     if b <= a:
@@ -548,43 +583,47 @@ def _region(text, lexpos):
 
 
 def confirm_hang(entry, text, unreg, first):
-    """first: the over-budget Outcome. -> ("hang", site, detail) | ("inconclusive", label, detail)"""
+    """first: the over-budget Outcome. -> ("hang", site, detail) | ("inconclusive", label, detail)
+
+    1. re-measure alone three times (the third run with twice the budget, to obtain a complete time):
+       any run within budget -> inconclusive;
+    2. growth must be super-linear in the region the parser was working on: doubling the region costs at
+       least 3x the complete time, or cutting the region (by halves) makes the input complete at least
+       8x faster than the budget it exceeded. Neither -> inconclusive."""
     T = budget(len(text))
-    site, lexpos = first.site, first.lexpos
-    # re-measure alone, three times; the third run gets twice the budget to obtain a complete time
+    site, lexpos = (first.site, first.via), first.lexpos
     full = None
     for k in range(3):
         o = run_once(entry, text, unreg, cap=T if k < 2 else 2 * T)
-        if o.status not in ("timeout", "wall_timeout"):
+        if o.status == "wall_timeout":
+            return ("inconclusive", "wall_clock_backstop", "")
+        if o.status != "timeout":
             if o.cpu <= T:
                 return ("inconclusive", "over_budget_not_reproduced", f"rerun {k}: {o.cpu:.2f}s <= {T:.2f}s")
             full = o.cpu
-        elif o.status == "wall_timeout":
-            return ("inconclusive", "wall_clock_backstop", "")
         else:
-            site, lexpos = o.site, o.lexpos
+            site, lexpos = (o.site, o.via), o.lexpos
     a, b = _region(text, lexpos)
     reg = text[a:b]
+    head = (f"{full:.2f}s" if full is not None else f"> {2 * T:.2f}s") + \
+        f" CPU for {len(text)} chars (budget {T:.2f}s, over budget in 4 runs of 4)"
     if full is not None:
-        pumped = text[:a] + reg + reg + text[b:]
-        o = run_once(entry, pumped, unreg, cap=3.0 * full)
+        o = run_once(entry, text[:a] + reg + reg + text[b:], unreg, cap=3.0 * full)
         if o.status == "timeout" or (o.status != "wall_timeout" and o.cpu >= 3.0 * full):
-            return ("hang", site, f"{full:.2f}s CPU for {len(text)} chars (budget {T:.2f}s); with the "
-                    f"{len(reg)}-char region at offset {a} doubled: >= {3.0 * full:.2f}s")
-        return ("inconclusive", "slow_but_linear", f"{full:.2f}s, pumped {o.cpu:.2f}s")
-    # never completes within 2T: shrink the region until it does; doubling it back must cost >= 8x
+            return ("hang", site, f"{head}; with the {len(reg)}-char region at offset {a} doubled: "
+                    f">= {3.0 * full:.2f}s")
     cur = reg
     for _ in range(8):
         half = cur[:len(cur) // 2]
         if half == cur:
             break
         o = run_once(entry, text[:a] + half + text[b:], unreg, cap=T)
-        if o.status not in ("timeout", "wall_timeout"):
-            base = max(o.cpu, 0.01)
-            if T / base >= 8.0:
-                return ("hang", site, f"> {2 * T:.2f}s CPU for {len(text)} chars (budget {T:.2f}s); region at "
-                        f"offset {a} cut to {len(half)} chars completes in {o.cpu:.3f}s, doubled to "
-                        f"{len(cur)} chars it exceeds {T:.2f}s")
+        if o.status == "wall_timeout":
+            break
+        if o.status != "timeout":
+            if (full or T) / max(o.cpu, 0.01) >= 8.0:
+                return ("hang", site, f"{head}; with the region at offset {a} cut from {len(cur)} to "
+                        f"{len(half)} chars it completes in {o.cpu:.3f}s")
             return ("inconclusive", "slow_but_linear", f"half region {o.cpu:.2f}s")
         cur = half
     return ("inconclusive", "hang_region_not_found", f"site {site} lexpos {lexpos}")
@@ -624,6 +663,10 @@ def judge(h, recipe, raw=False, regression=False):
         if ncap:
             h.exclude("unmatched_string_literal_capped_to_%d_chars" % PLAIN_CAP)
             text = text2
+        text2, ncap = cap_integer_widths(text)
+        if ncap:
+            h.exclude("integer_type_width_capped_to_7_digits")
+            text = text2
         if nesting_depth(text) > MAX_NEST:
             h.exclude("nesting_deeper_than_%d" % MAX_NEST)
             return
@@ -648,7 +691,7 @@ def judge(h, recipe, raw=False, regression=False):
     elif o.status == "timeout":
         verdict, what, detail = confirm_hang(entry, text, unreg, o)
         if verdict == "hang":
-            h.mismatch({"check": "time", "site": what}, recipe,
+            h.mismatch({"check": "time", "site": what[0], "in": what[1]}, recipe,
                        f"{detail}\ninput ({len(text)} chars, entry={entry}): {text[:400]!r}")
         else:
             h.inconclusive(what)
@@ -1002,6 +1045,7 @@ def _fuzz_main(scratch, seconds, seed, stride):
             dump()
         text = data.decode("utf-8", "ignore")
         text, _ = cap_unmatched_strings(text)
+        text, _ = cap_integer_widths(text)
         if nesting_depth(text) > MAX_NEST:
             return
         o = run_once("module", text, True)
